@@ -1078,8 +1078,88 @@ def e3_projects():
     ]
 
 
-def try_e3(ctx):
-    """Real serve() on a few projects: exit status versus the model and versus the property."""
+def gen_e3_case(rng, k):
+    """A generated project and a one-edit history for the exit-status oracle: failing commands, missing inputs,
+    a resource requirement above what is available, keep-going or not (a failure without it drains the
+    scheduler), and in the judged (second) build: a fixed or newly broken command, valid / unproduced / invalid
+    targets."""
+    from . import e3
+    n = rng.randint(2, 5)
+    actions = [_PF, {"op": "static", "paths": ["a.txt", "b.txt"]}]
+    commands, outs, labels = {}, [], []
+    for j in range(n):
+        pool = ["a.txt", "b.txt"] + outs
+        inp = sorted(set(rng.sample(pool, k=rng.choice([1, 1, 2]))))
+        if rng.random() < 0.15:
+            inp.append(f"nothere{j}.txt")
+        step = {"op": "step", "label": f"s{j}", "inp": inp, "out": [f"o{j}.txt"]}
+        if rng.random() < 0.15:
+            step["resources"] = {"tok": 2}
+        if rng.random() < 0.15:
+            step["optional"] = True
+        actions.append(step)
+        labels.append(f"s{j}")
+        outs.append(f"o{j}.txt")
+        if rng.random() < 0.22:
+            commands[f"s{j}"] = [{"op": "exit", "rc": 1}]
+    project = e3.Project(sources={"a.txt": "x\n", "b.txt": "y\n"},
+                         program={"scripts": {"plan.py": actions}, "commands": commands})
+    kw = {"keep_going": rng.random() < 0.5, "njob": rng.choice([1, 2]), "resources": "tok:1"}
+    edits = []
+    r = rng.random()
+    if r < 0.3 and commands:
+        edits.append({"op": "command", "label": rng.choice(sorted(commands)), "actions": None})
+    elif r < 0.5:
+        edits.append({"op": "command", "label": rng.choice(labels), "actions": [{"op": "exit", "rc": 1}]})
+    elif r < 0.65:
+        edits.append({"op": "write", "path": "a.txt", "content": "changed\n"})
+    targets = rng.choice([(), (), (rng.choice(outs),), ("nowhere.txt",), (rng.choice(outs), "nowhere.txt"), ("a.txt",)])
+    build = dict(kw, keep_going=rng.random() < 0.5)
+    if targets:
+        build["targets"] = targets
+    return f"gen-{k}", project, [{"edits": edits, "build": build}], kw
+
+
+def e3_watch_scenarios(ctx):
+    """Watch mode: the exit status of the director is the one of the LAST phase (C19_exit_status_is_last_phase)."""
+    from . import e3
+    plan = [_PF, {"op": "static", "paths": ["a.txt"]}, {"op": "step", "label": "mk", "inp": ["a.txt"], "out": ["b.txt"]}]
+    fail = [{"op": "exit", "rc": 1}]
+    for name, first_cmds, second_cmds in (("watch:fail-then-fix", {"mk": fail}, {}), ("watch:ok-then-break", {}, {"mk": fail})):
+        try:
+            project = e3.Project(sources={"a.txt": "x\n"}, program={"scripts": {"plan.py": plan}, "commands": dict(first_cmds)})
+            with tempfile.TemporaryDirectory(prefix="c19-e3w-") as root:
+                project.materialise(root)
+                ws = e3.WatchSession(root, project.program)
+                with ws:
+                    r0 = ws.first()
+                    prog = {"scripts": project.program["scripts"], "commands": dict(second_cmds)}
+                    ws.program = prog
+                    ws.write("a.txt", "changed\n")
+                    ws.sync()
+                    r1 = ws.rebuild()
+                final = ws.returncode
+        except Exception as e:  # noqa: BLE001
+            ctx.add_failure("oracle", "e3-crash", f"e3:crash:{name}", f"watch scenario {name} raised {type(e).__name__}: {e}")
+            continue
+        ctx.count(f"e3:{name}:phases={r0.returncode},{r1.returncode}:exit={final}")
+        ctx.case(("e3", name, r0.returncode, r1.returncode, final), True)
+        wit = {"scenario": name, "phase_codes": [r0.returncode, r1.returncode], "exit": final}
+        if final != r1.returncode:
+            ctx.add_failure("oracle", "e3", "e3:watch:exit-status-is-not-the-last-phase",
+                            f"{name}: phases returned {r0.returncode}, {r1.returncode}; the director exited with {final}",
+                            witness=wit)
+        broken_first = bool(first_cmds)
+        if bool(r0.returncode & 4) != broken_first or bool(r1.returncode & 4) != (not broken_first):
+            ctx.add_failure("oracle", "e3", "e3:watch:FAILED-bit-of-a-phase",
+                            f"{name}: phase codes {r0.returncode}, {r1.returncode}", witness=wit)
+        if broken_first and final != 0:
+            ctx.add_failure("oracle", "e3", "e3:watch:bits-of-an-earlier-phase-kept",
+                            f"{name}: the failing step was fixed and the last phase succeeded, exit status {final}", witness=wit)
+
+
+def try_e3(ctx, ngen=None):
+    """Real serve() on fixed and generated projects: exit status versus the model and versus the property."""
     try:
         from . import e3
     except Exception as e:  # noqa: BLE001
@@ -1087,13 +1167,18 @@ def try_e3(ctx):
         return
     header = HEADER
     checks, names, judged = [], [], []
-    for name, project, history in e3_projects():
+    cases = [(n_, p_, h_, {}) for n_, p_, h_ in e3_projects()]
+    ngen = ctx.scale(24, 250) if ngen is None else ngen
+    cases += [gen_e3_case(ctx.rng, k) for k in range(ngen)]
+    witnesses = {}
+    for name, project, history, kw in cases:
+        witnesses[name] = {"project": name, "e3_project": project.to_json(), "history": history, "build0": kw}
         try:
             hist = [dict(h, build=dict(h["build"], probe=_e3_probe)) for h in history]
             if hist:
-                res = e3.run_history(project, hist)[-1]
+                res = e3.run_history(project, hist, **kw)[-1]
             else:
-                res = e3.from_scratch(project, probe=_e3_probe)
+                res = e3.from_scratch(project, probe=_e3_probe, **kw)
         except Exception as e:  # noqa: BLE001
             ctx.add_failure("oracle", "e3-crash", f"e3:crash:{name}", f"E3 build {name} raised {type(e).__name__}: {e}")
             continue
@@ -1112,7 +1197,7 @@ def try_e3(ctx):
             names.append(name)
             if not rc & 4:
                 ctx.add_failure("oracle", "e3", "e3:invalid-target-without-FAILED-bit",
-                                f"invalid target, serve() returned {rc}", witness={"project": name, "rc": rc})
+                                f"invalid target, serve() returned {rc}", witness=dict(witnesses[name], rc=rc))
             continue
         nfailed = sum(1 for st, need, det in pr["steps"] if st == 24 and not det)
         npend = sum(1 for st, need, det in pr["steps"] if st == 21 and need > pr["threshold"] and not det)
@@ -1125,24 +1210,28 @@ def try_e3(ctx):
     for i in bad:
         ctx.add_failure("correspondence", "e3:" + names[i], "E3:model-vs-serve:returncode",
                         f"model exit status differs from serve() in {names[i]}: {checks[i]}",
-                        witness={"project": names[i], "check": checks[i]})
+                        witness=dict(witnesses[names[i]], check=checks[i]))
     for name, rc, nfailed, npend, pr in judged:
         failed_bit, pending_bit = bool(rc & 4), bool(rc & 16)
         if pending_bit != ((not pr["draining"]) and npend > 0):
-            ctx.add_failure("oracle", "e3", "e3:PENDING-bit", f"{name}: rc={rc} probe={pr}", witness={"project": name})
+            ctx.add_failure("oracle", "e3", "e3:PENDING-bit", f"{name}: rc={rc} probe={pr}", witness=dict(witnesses[name], rc=rc))
         if failed_bit != (nfailed > 0 or pr["glob_err"] > 0):
             if not failed_bit and nfailed == 0 and pr["glob_err"] > 0 and rc != 0:
                 sig = ("report_unbuilt:glob-error-skipped:draining" if pr["draining"]
                        else "report_unbuilt:glob-error-skipped:returncode-already-nonzero")
                 ctx.add_failure("oracle", "e3", sig,
                                 f"serve() on project {name}: a recorded glob match is a file a step builds, "
-                                f"exit status {rc} has no FAILED bit", witness={"project": name, "rc": rc, "probe": pr})
+                                f"exit status {rc} has no FAILED bit", witness=dict(witnesses[name], rc=rc, probe=pr))
             else:
-                ctx.add_failure("oracle", "e3", "e3:FAILED-bit", f"{name}: rc={rc} probe={pr}", witness={"project": name})
+                ctx.add_failure("oracle", "e3", "e3:FAILED-bit:" + ("set-without-failed-step" if failed_bit else "clear-with-failed-step"),
+                                f"{name}: rc={rc} probe={pr}", witness=dict(witnesses[name], rc=rc))
+        if bool(rc & 32) != bool(pr["draining"]):
+            ctx.add_failure("oracle", "e3", "e3:DRAINED-bit", f"{name}: rc={rc} probe={pr}", witness=dict(witnesses[name], rc=rc))
         if rc == 0 and (nfailed or npend or pr["glob_err"] or pr["glob_warn"] or pr["miss_t"] or pr["miss_d"]
                         or any(st != 23 for st, need, det in pr["steps"] if need > pr["threshold"] and not det)):
-            ctx.add_failure("oracle", "e3", "e3:zero-but-something-wrong", f"{name}: probe={pr}", witness={"project": name})
-    ctx.notes.append(f"E3 part: {len(checks)} serve() builds compared with the model")
+            ctx.add_failure("oracle", "e3", "e3:zero-but-something-wrong", f"{name}: probe={pr}", witness=dict(witnesses[name], rc=rc))
+    e3_watch_scenarios(ctx)
+    ctx.notes.append(f"E3 part: {len(checks)} serve() builds compared with the model, 2 watch sessions")
 
 
 def search(ctx):
